@@ -274,6 +274,8 @@ def outlier_menu(n, T):
 
 
 def zero_menu(n, T):
+    if T and n <= 7:
+        return [[]] + [[p] for p in range(n)] + [[p, q] for p, q in itertools.combinations(range(n), 2)]
     if T:
         return [[]] + [[p] for p in range(n)] + [[p, p + 1] for p in range(n - 1)] + [[0, n - 1]]
     return [[]] + [[p] for p in (0, 3, n // 2 + 1, n - 1)] + [[0, n - 1], [4, 5]]
@@ -323,15 +325,16 @@ def tasks(tier):
         for kn in KNOTS12:
             for (up, lo) in thr:
                 for ivpat in (0, 1):
-                    if T:
+                    if T and (ivpat == 0 or (up, lo) == (5, 5)):
                         for zfirst in [None] + list(range(12)):
                             t.append({'part': 'P', 'n': 12, 'k': k, 'knots': kn, 'upper': up, 'lower': lo, 'ivpat': ivpat, 'zfirst': zfirst, 'tier': tier})
-                    elif ivpat == (k + up) % 2:
+                    elif not T and ivpat == (k + up) % 2:
                         t.append({'part': 'P', 'n': 12, 'k': k, 'knots': kn, 'upper': up, 'lower': lo, 'ivpat': ivpat, 'tier': tier})
     if T:
         for k in (2, 3, 4):
             for (up, lo) in thr:
-                t.append({'part': 'P', 'n': 7, 'k': k, 'knots': ['nbkpts', 2], 'upper': up, 'lower': lo, 'ivpat': 0, 'zfirst': 'all', 'tier': tier})
+                for zfirst in [None] + list(range(7)):
+                    t.append({'part': 'P', 'n': 7, 'k': k, 'knots': ['nbkpts', 2], 'upper': up, 'lower': lo, 'ivpat': 0, 'zfirst': zfirst, 'tier': tier})
     return t
 
 
@@ -379,7 +382,7 @@ def run_task(task):
     if part == 'O12':
         n = 12
         for zero in [[]] + [[p] for p in (range(n) if T else (0, 5, 11))]:
-            for out in [[]] + [[[p, a]] for p in (range(n) if T else (0, 4, 11)) for a in ((50.0, -6.0) if not T else MAGS)]:
+            for out in [[]] + [[[p, a]] for p in (range(n) if T else (0, 4, 11)) for a in (50.0, -6.0)]:
                 cfg = {'part': 'O', 'n': n, 'k': task['k'], 'knots': task['knots'], 'zero': zero, 'out': out, 'ivpat': (len(zero) + len(out)) % 2,
                        'upper': 5, 'lower': 3, 'maxiter': task['maxiter']}
                 if len(zero) and len(out) and zero[0] == out[0][0]:
@@ -397,7 +400,7 @@ def run_task(task):
     # part P
     n = task['n']
     zs = zero_menu(n, T)
-    if T and task['zfirst'] != 'all':
+    if T:
         zs = [z for z in zs if (z[0] if z else None) == task['zfirst']]
     for zero in zs:
         for out in outlier_menu(n, T):
